@@ -32,7 +32,7 @@ theorem cons_binsearch_pattern_binSearch_eq_base (first hi : Nat) (f : Nat → B
 /-- the same with the conversion written the other way (`hi = lastP1 - 1` in `Nat`).  Go's `to` is an `int`, so the
 empty provider `first = lastP1 = 0` would give `to = -1`; truncated subtraction cannot express that, hence the
 hypothesis (both token providers start TIDs at 1, so it always holds there). -/
-theorem cons_binsearch_pattern_binSearch_eq_base' (first lastP1 : Nat) (f : Nat → Bool) (h : 1 ≤ first ∨ 1 ≤ lastP1) :
+theorem cons_binsearch_pattern_binSearch_eq_base_dom (first lastP1 : Nat) (f : Nat → Bool) (h : 1 ≤ first ∨ 1 ≤ lastP1) :
     SV.Pattern.binSearch first lastP1 f = SV.binSearchInRange first (lastP1 - 1) f := by
   unfold SV.Pattern.binSearch SV.binSearchInRange
   have e : lastP1 - 1 + 1 - first = lastP1 - first := by omega
